@@ -67,3 +67,25 @@ def _kf_c09_a(t):
     judged = [1 for k, s in zip(t.get("keys", []), t.get("sel", [])) if k != -999 and s == 1]
     return (t.get("out") == "raise" and t.get("exc") == "IndexError" and t.get("cfg", {}).get("layout") == "bygroup"
             and not judged)
+
+
+# ------------------------------------------------------------------------------------------ C05
+@finding("C05-ema-decays-across-masked-rows")
+def _kf_c05_a(t):
+    # plain (row counting) EMA: an unselected row of the group still decays the state, so the value at the next
+    # selected row differs from the EMA of the filtered rows.  Pinned by the repository's passing test
+    # test_ema_comparison_with_pandas_ewm[not timed-*-masked] (pandas ewm on values.where(mask)).
+    return t.get("op") == "ema" and t.get("timed") == 0 and 0 in t.get("sel", []) and t.get("out") == "ok"
+
+
+@finding("C05-chunked-keys-positional-mask-as-set")
+def _kf_c05_b(t):
+    # chunked group keys: _resolve_mask_argument_into_chunks turns a positional mask into a boolean one, so
+    # repeated positions count once and the selection order is lost (flat keys index the way NumPy does)
+    p = t.get("mask", {}).get("p")
+    if t.get("mask", {}).get("k") != "pos" or not p or t.get("out") != "ok":
+        return False
+    chunked = (t.get("cfg", {}).get("T") or 10 ** 6) < 10 ** 6 or "pachunk" in str(t.get("cfg", {}).get("kcont"))
+    n = len(t.get("keys", []))
+    norm = [x + n if x < 0 else x for x in p]
+    return chunked and (len(set(norm)) < len(norm) or norm != sorted(norm))
